@@ -186,14 +186,78 @@ class Program:
             ci.bases = [self.resolve_expr_name(ci.module, b) or norm(b) for b in ci.node.bases]
         # normalisation: absorb helpers that are new w.r.t. the reference function table (see core/inline.py)
         self.inlined: List[Tuple[str, str]] = []
+        self.renamed: Dict[str, str] = {}
         if not os.environ.get("VERIF_NO_INLINE"):
             from .inline import Inliner, load_known
 
             known = load_known()
             if known is not None:
+                self._undo_renames()
                 inl = Inliner(self, known)
                 inl.run()
                 self.inlined = inl.log
+
+    def _undo_renames(self) -> None:
+        """A function of the reference table that vanished while ONE new function with the same parameters and mostly
+        the same statements appeared in the same class / module is that function under a new name: it is indexed under
+        its reference name again (rules and call resolution keep working; a rename changes no behaviour)."""
+        import hashlib
+        from .inline import load_known_full
+
+        full = load_known_full()
+        if not full:
+            return
+        missing = [q for q in full if q not in self.functions and "<locals>" not in q]
+        new = [q for q in self.functions if q not in full and "<locals>" not in q]
+        if not missing or not new:
+            return
+
+        def scope(q: str) -> str:
+            mod, _, rest = q.partition(":")
+            return mod + ":" + (rest.rsplit(".", 1)[0] if "." in rest else "")
+
+        def sig(fi) -> set:
+            hs = set()
+            for st in walk_function(fi.node):
+                if isinstance(st, ast.stmt) and not isinstance(st, (ast.FunctionDef, ast.AsyncFunctionDef, ast.ClassDef)) and st is not fi.node:
+                    hs.add(hashlib.sha1(norm(st).encode()).hexdigest()[:8])
+            return hs
+
+        taken = set()
+        for m in missing:
+            ref = full[m]
+            cands = []
+            for n in new:
+                if n in taken or scope(n) != scope(m):
+                    continue
+                fi = self.functions[n]
+                if fi.params != ref.get("params"):
+                    continue
+                a, b = sig(fi), set(ref.get("sig", []))
+                sim = len(a & b) / max(1, len(a | b))
+                if sim >= 0.5 or (not b and not a):
+                    cands.append((sim, n))
+            if len(cands) != 1:
+                continue
+            n = cands[0][1]
+            taken.add(n)
+            self.renamed[m] = n
+        self._apply_renames()
+
+    def _apply_renames(self) -> None:
+        self._canon_names = {n: m for m, n in self.renamed.items()}  # new qualified name -> reference name
+        for m, n in self.renamed.items():
+            fi = self.functions.get(n)
+            if fi is None:
+                continue
+            old_name = m.split(":", 1)[1].rsplit(".", 1)[-1]
+            fi.name = old_name  # qualname (computed from .name) is the reference name again
+            self.functions[m] = fi
+            del self.functions[n]
+            if fi.cls is not None:
+                fi.cls.methods[old_name] = fi  # the new name stays as a key too: call sites use it
+            else:
+                fi.module.functions[old_name] = fi
 
     def _reindex(self) -> None:
         self.functions.clear()
@@ -206,6 +270,8 @@ class Program:
             self._index_defs(mi)
         for ci in self.classes.values():
             ci.bases = [self.resolve_expr_name(ci.module, b) or norm(b) for b in ci.node.bases]
+        if getattr(self, "renamed", None):
+            self._apply_renames()
 
     def _index_imports(self, mi: ModuleInfo) -> None:
         for node in ast.walk(mi.tree):
@@ -360,6 +426,11 @@ class Program:
         return dotted
 
     def resolve_call(self, fi: FunctionInfo, call: ast.Call) -> str:
+        q = self._resolve_call(fi, call)
+        canon = getattr(self, "_canon_names", None)
+        return canon.get(q, q) if canon else q
+
+    def _resolve_call(self, fi: FunctionInfo, call: ast.Call) -> str:
         """Qualified callee name of a call inside function `fi`.
 
         Repo callees: 'module:func' / 'module:Class.method' / 'module:Class' (constructor).
